@@ -86,3 +86,4 @@ Print Assumptions C04_parameters_independent_of_caches.
 Print Assumptions C04_caches_unique.
 Print Assumptions C04_condition_on.
 Print Assumptions C04_conditional_transformation.
+Print Assumptions C04_queries_keep_parameters.
